@@ -337,7 +337,7 @@ def run_shard(ctx, spec):
             ctx.case(("rt", n, tuple(k["kty"] for k in c["keys"]), tuple(k is None for k in c["kids"])), cls="roundtrip-set")
             for k, w in f2.items():
                 ctx.finding(k, w, dict(c, roundtrip=True))
-    drive(ctx, "kid", cases(), body, 450 if ctx.tier == "quick" else 8000)
+    drive(ctx, "kid", cases(), body, 380 if ctx.tier == "quick" else 8000)
 
 
 def replay(rec) -> dict:
